@@ -349,9 +349,39 @@ func sexpString(x interface{}) string {
 	return ""
 }
 
+func unquoteSMT(s string) string {
+	s = s[1 : len(s)-1]
+	s = strings.ReplaceAll(s, "\"\"", "\"")
+	var sb strings.Builder
+	for i := 0; i < len(s); i++ {
+		if s[i] == '\\' && i+2 < len(s) && s[i+1] == 'u' && s[i+2] == '{' {
+			j := strings.IndexByte(s[i:], '}')
+			if j > 0 {
+				var v int
+				fmt.Sscanf(s[i+3:i+j], "%x", &v)
+				sb.WriteByte(byte(v))
+				i += j
+				continue
+			}
+		}
+		if s[i] == '\\' && i+1 < len(s) && s[i+1] == 'x' && i+3 < len(s) {
+			var v int
+			fmt.Sscanf(s[i+2:i+4], "%x", &v)
+			sb.WriteByte(byte(v))
+			i += 3
+			continue
+		}
+		sb.WriteByte(s[i])
+	}
+	return sb.String()
+}
+
 func evalSexp(x interface{}) string {
 	switch x := x.(type) {
 	case string:
+		if len(x) >= 2 && x[0] == '"' {
+			return unquoteSMT(x)
+		}
 		return x
 	case []interface{}:
 		if len(x) == 2 && x[0] == "-" {
